@@ -13,8 +13,9 @@ theorem filter_exact (u : UTab) (q : Query) (rs : List Record) :
 /-- A record that passes the filter is otherwise unchanged: same date, should-total, summary;
 its entries are a sub-sequence (original order) of the original entries. -/
 theorem filter_record_shape (u : UTab) (q : Query) (r r' : Record) (h : filterOne u q r = some r') :
-    r'.date = r.date ∧ r'.should = r.should ∧ r'.summary = r.summary ∧ r'.entries.Sublist r.entries ∧ r'.entries ≠ [] ∨ r' = r :=
-  KlogV.filterOne_shape u q r r' h
+    r'.date = r.date ∧ r'.should = r.should ∧ r'.summary = r.summary ∧ r'.entries.Sublist r.entries ∧
+      (r'.entries ≠ [] ∨ r' = r) :=
+  KlogV.filterOne_shape_strong u q r r' h
 
 /-- Date clauses: a record passes exactly when its date satisfies the clause. -/
 theorem filter_date_clauses (u : UTab) (at_ before after : Option Date) (r : Record) :
